@@ -3,6 +3,8 @@
 package consensus
 
 import (
+	"unsafe"
+
 	"github.com/icon-project/goloop/common"
 	"github.com/icon-project/goloop/module"
 )
@@ -38,6 +40,7 @@ type SimVoteSlot struct {
 // SimVoteSetView is a snapshot of one (round, type) vote set together with
 // what the vote set itself reports.
 type SimVoteSetView struct {
+	ID                   uintptr // identity of the vote set object (a discarded and re-created set gets a new one)
 	Round                int32
 	Type                 VoteType
 	Slots                []SimVoteSlot
@@ -84,7 +87,7 @@ func SimStateOf(c module.Consensus) SimState {
 			if vs == nil {
 				continue
 			}
-			v := SimVoteSetView{Round: r, Type: t, Slots: make([]SimVoteSlot, len(vs.msgs))}
+			v := SimVoteSetView{ID: uintptr(unsafe.Pointer(vs)), Round: r, Type: t, Slots: make([]SimVoteSlot, len(vs.msgs))}
 			for i, m := range vs.msgs {
 				if m != nil {
 					v.Slots[i] = SimVoteSlot{Voted: true, DecisionDigest: m.RoundDecisionDigest(), Nil: m.BlockPartSetIDAndNTSVoteCount == nil}
